@@ -185,7 +185,7 @@ static const char *op_name(int code)
     return code > 0 && code < OP__N ? n[code] : "?";
 }
 
-enum { CFG_PROP = 0, CFG_TYPE, CFG_POOL, CFG_FAULTS, CFG_PROVIDE, CFG_TWIN, CFG_ALLOCDEF };
+enum { CFG_PROP = 0, CFG_TYPE, CFG_POOL, CFG_FAULTS, CFG_PROVIDE, CFG_TWIN, CFG_ALLOCDEF, CFG_FAULTSWEEP };
 
 enum { F_ORDER = 1, F_SAME_PAYLOAD = 2, F_IMMEDIATE = 4,
        F_COMPLETE = 8, /* documented never to drop: everything accepted comes out once the loop and the clock ran */
@@ -791,14 +791,22 @@ static bool faults_here(const struct sim_op *op)
 {
     return faults_allowed() && !((types[type].flags & F_TYPED) && op->code == OP_INPUT);
 }
+/* single-fault sweep: the same fault-free history is executed again and again,
+ * the k-th eligible allocation of the whole execution failing, k = 1, 2, ...
+ * until k is past the last one. Lifecycle and leak oracles only. */
+static int sweep_k;
 static void arm(const struct sim_op *op)
 {
+    if (sweep_k)
+        return;
     int f = (int)((uint64_t)op->a[5] % 6);
     if (f && faults_here(op))
         sim_alloc_arm(f);
 }
 static void disarm(const struct sim_op *op)
 {
+    if (sweep_k)
+        return;
     int f = (int)((uint64_t)op->a[5] % 6);
     if (sim_alloc_disarm() == 0 && f && faults_here(op)) {
         fault_fired = true;
@@ -1092,6 +1100,8 @@ static void do_op(const struct sim_op *op)
         const char *def = defs[(uint64_t)op->a[0] % NDEFS];
         uint64_t x = (uint64_t)op->a[1];
         int kind = K_BLOCK;
+        if (sweep_k)
+            sim_alloc_suspend();        /* (the harness's own allocations do not fail) */
         /* (upipe_audio_copy reframes: the format it was allocated with has to be
          * the one of its input - it copies with the input's sample size into
          * buffers of the output's and does not compare them) */
@@ -1106,6 +1116,8 @@ static void do_op(const struct sim_op *op)
         if (x & 4) uref_flow_set_id(fd, x % 100);
         static const uint64_t fsizes[] = { 188, 16, 1500, 70 };
         if (x & 8) uref_block_flow_set_size(fd, fsizes[(x >> 4) & 3]);
+        if (sweep_k)
+            sim_alloc_resume();
         if (mode == MODE_TWIN && rejected[cur_op]) {
             /* the pipe said no to this one: the twin is not even asked */
             uref_free(fd);
@@ -1149,13 +1161,18 @@ static void do_op(const struct sim_op *op)
              * property is about that, empty buffers are kept away from it) */
             if (size == 0 && !strncmp(types[type].name, "rtp_", 4))
                 size = 1;
+            if (sweep_k)
+                sim_alloc_suspend();
             bool blocks = cur_kind == K_BLOCK || cur_kind == K_S24BLOCK;
             if (cur_kind == K_S24BLOCK)
                 size = size / 6 * 6;        /* whole 24-bit stereo samples */
             struct uref *uref = blocks ? uref_block_alloc(uref_mgr, ubuf_mgr, (int)size)
                                        : typed_buffer(cur_kind, size, (uint64_t)op->a[2] + k);
-            if (uref == NULL)
+            if (uref == NULL) {
+                if (sweep_k)
+                    sim_alloc_resume();
                 break;
+            }
             if (!blocks)
                 SIM_PROBE("sweep_typed_buffer_input");
             /* pictures cut into rows (row_split's output, row_join's input) */
@@ -1215,6 +1232,8 @@ static void do_op(const struct sim_op *op)
                 largest_input = sent_rec[my].size;
             if (!strcmp(types[type].name, "buffer") && sent_rec[my].size > buffer_max_size)
                 complete_tainted = true;        /* (never fits: kept for ever, by design) */
+            if (sweep_k)
+                sim_alloc_resume();
             arm(op);
             upipe_input(ut, uref, ((uint64_t)op->a[2] & 4) && src_pump != NULL ? &src_pump : NULL);
             disarm(op);
@@ -1612,6 +1631,10 @@ static bool run_once(void)
         return false;
     }
     env_setup();
+    if (sweep_k) {
+        fault_fired = true;             /* (data oracles off from the start) */
+        sim_alloc_arm(sweep_k);
+    }
     struct upipe_mgr *mgr = types[type].mgr_alloc();
     ut_alloc = NULL;
     allocating = true;
@@ -1671,6 +1694,8 @@ static bool run_once(void)
         upump_sim_mgr_set_budget(upump_mgr, 64);
         upump_mgr_run(upump_mgr, NULL);
         bool complete_env = (provide() & 31) == 31;
+        if (sweep_k && sim_alloc_failed())
+            provider_failed = true;     /* (what failed may have been the answer to a request) */
         if (checking() && ut_ready != 1)
             sim_violation(V_READY_ORDER, "%s threw ready %u times", types[type].name, ut_ready);
         else if (checking() && ut_dead > 1)
@@ -1739,6 +1764,33 @@ static void run(const char *pr, const struct sim_plan *pl)
     memset(rejected, 0, sizeof(rejected));
     memset(ntrace, 0, sizeof(ntrace));
     uint64_t t0 = sim_now();
+    sweep_k = 0;
+    if (((uint64_t)plan->cfg[CFG_FAULTSWEEP] & 1) && !twin_run && !(types[type].flags & F_TYPED)) {
+        /* fault-free first, then one execution per allocation that can fail */
+        bool swept = false;
+        static const char *const no_error_path[] = { "m3u_reader", "ts_align", NULL };
+        for (int i = 0; no_error_path[i] != NULL; i++)
+            if (!strcmp(types[type].name, no_error_path[i]))
+                swept = true;
+        if (!run_once() || swept)
+            return;
+        for (int k = 1; k <= 96 && checking(); k++) {
+            sim_set_now(t0);
+            sweep_k = k;
+            bool ok = run_once();
+            unsigned failed = sim_alloc_failed();
+            sweep_k = 0;
+            if (!ok)
+                return;
+            if (!failed) {
+                SIM_PROBE("sweep_fault_sweep_completed");
+                break;                  /* k is past the last allocation */
+            }
+            SIM_PROBE("sweep_fault_sweep_execution");
+        }
+        sim_alloc_disarm();
+        return;
+    }
     if (!run_once() || !twin_run || !checking() || fault_fired || provider_failed)
         return;
     bool anything = false;
@@ -1782,6 +1834,13 @@ static void gen(const char *pr, struct sim_rng *r, struct sim_plan *p)
     p->cfg[CFG_PROVIDE] = sim_rng_chance(r, 9, 10) ? 31 : sim_rng_below(r, 32);
     p->cfg[CFG_ALLOCDEF] = sim_rng_below(r, 128);
     int n = 3 + (int)sim_rng_below(r, 24);
+    if ((p->cfg[CFG_PROP] == 1 || p->cfg[CFG_PROP] == 4) && !p->cfg[CFG_TWIN] && sim_rng_chance(r, 1, 8)) {
+        /* single-fault sweep over a short fault-free history */
+        p->cfg[CFG_FAULTSWEEP] = 1;
+        p->cfg[CFG_FAULTS] = 0;
+        p->cfg[CFG_PROVIDE] = 31;
+        n = 2 + (int)sim_rng_below(r, 8);
+    }
     /* most histories negotiate something the pipe may accept first */
     int first = (int)sim_rng_below(r, NDEFS);
     if (sim_rng_chance(r, 7, 8))
